@@ -5,17 +5,22 @@ Import ListNotations.
 From JB Require Import Constants Bytes Utf8 Num Value Decimal.
 Open Scope N_scope.
 
+(* DOMAIN: KeyPath::Index holds an i32 in the code; here the index is any Z.  Every theorem that quantifies over key paths holds
+   for all Z; the code's domain is the part where each index is an i32 (Walk.in_i32), which is all parse_key_paths produces
+   (PathI32.parsed_key_path_indices_are_i32).  Outside it the model has answers the code has no input for. *)
 Inductive keypath := KIndex (i : Z) | KName (s : list N) | KQuoted (s : list N).
 
 Definition lenZ {A} (l : list A) : Z := Z.of_nat (length l).
+(* the index is compared with the length BEFORE it is turned into a unary number: a caller-chosen index (any u64 / i32) never
+   becomes a unary nat larger than the list (nth_opt beyond the end is None anyway: WalkProofs.nth_opt_past, get_by_index_t_nth, nthZ_spec) *)
 Definition nthZ {A} (l : list A) (i : Z) : option A :=
-  if (i <? 0)%Z then None else nth_opt l (Z.to_nat i).
+  if ((i <? 0) || (lenZ l <=? i))%Z then None else nth_opt l (Z.to_nat i).
 
 (* ---- accessors ---- *)
 Definition array_length_t (v : value) : option N :=
   match v with VArr l => Some (lenN l) | _ => None end.
 Definition get_by_index_t (v : value) (i : N) : option value :=
-  match v with VArr l => nth_opt l (N.to_nat i) | _ => None end.
+  match v with VArr l => if lenN l <=? i then None else nth_opt l (N.to_nat i) | _ => None end.
 
 Fixpoint first_ci (name : list N) (l : list (list N * value)) : option value :=
   match l with
